@@ -61,13 +61,5 @@ func (cc *CMPPCodec) DecodeBlocked(c ConnReader) ([]byte, error) {
 		return nil, ErrInvalidPacketLength
 	}
 
-	left := make([]byte, totalLen)
-	_, err = io.ReadFull(c, left[cmpp.PacketTotalLengthBytes:])
-	if err != nil {
-		return nil, err
-	}
-
-	copy(left[:cmpp.PacketTotalLengthBytes], totalLenBytes)
-
-	return left, nil
+	return readFrame(c, totalLenBytes, totalLen)
 }
